@@ -141,7 +141,8 @@ func c15Trees(tier string, yield0 func(*tnode)) {
 
 // c15Candidates lists argument forms derived from the tree.
 func c15Candidates(t *tnode) []string {
-	c := []string{".", "./...", "...", "$ABS", "$ABS/..."}
+	// incl. spellings that are not in canonical form
+	c := []string{".", "./...", "...", "$ABS", "$ABS/...", "$ABS/.", "$ABS/./...", "./."}
 	var walk func(n *tnode, rel string, depth int)
 	walk = func(n *tnode, rel string, depth int) {
 		for _, k := range n.Kids {
@@ -155,12 +156,12 @@ func c15Candidates(t *tnode) []string {
 					c = append(c, p)
 				}
 				if k.Name == "a.go" && depth == 1 {
-					c = append(c, "$ABS/"+p, p+"...")
+					c = append(c, "$ABS/"+p, p+"...", "$ABS/./"+p, path.Dir(p)+"/./a.go")
 				}
 			case "dir":
 				c = append(c, p, p+"/...")
 				if depth == 0 {
-					c = append(c, "$ABS/"+p, p+"...", "./"+p+"/")
+					c = append(c, "$ABS/"+p, p+"...", "./"+p+"/", "$ABS/"+p+"/..", p+"/../"+p, "$ABS/"+p+"/.")
 				}
 				walk(k, p, depth+1)
 			case "linkdir":
@@ -193,6 +194,32 @@ func c15Gen(tier string, emit func(any)) {
 					}
 				}
 				emit(&C15Case{Tree: t, Args: []string{a, b}})
+			}
+		}
+		// triples (quick): the same argument three times, and chains in which every pair overlaps
+		if tier != "thorough" {
+			rel := func(s string) string {
+				s = strings.TrimSuffix(s, "...")
+				s = strings.TrimPrefix(s, "$ABS")
+				return path.Clean("/" + s)[1:]
+			}
+			over := func(a, b string) bool {
+				ra, rb := rel(a), rel(b)
+				return ra == rb || ra == "" || rb == "" || strings.HasPrefix(rb, ra+"/") || strings.HasPrefix(ra, rb+"/")
+			}
+			n := 0
+			for ai, a := range cands {
+				if ai%3 == 0 {
+					emit(&C15Case{Tree: t, Args: []string{a, a, a}})
+				}
+				for _, b := range cands {
+					for _, d := range cands {
+						if a != b && b != d && a != d && over(a, b) && over(b, d) && over(a, d) && rel(a) != "" && rel(b) != "" && rel(d) != "" && n < 4 {
+							n++
+							emit(&C15Case{Tree: t, Args: []string{a, b, d}})
+						}
+					}
+				}
 			}
 		}
 		if tier == "thorough" && len(cands) <= 14 {
